@@ -396,6 +396,17 @@ impl PassManager {
         // Verify before we start
         ir.verify()?;
 
+        #[cfg(fuellabs_sway_verif)]
+        let verif_edited_passes = verif::edited_pass_group(passes);
+        #[cfg(fuellabs_sway_verif)]
+        let passes = verif_edited_passes.as_ref().unwrap_or(passes);
+        #[cfg(fuellabs_sway_verif)]
+        let options = &verif::edited_options(options);
+        #[cfg(fuellabs_sway_verif)]
+        if verif::observe("", ir) {
+            self.analyses.results.clear();
+        }
+
         let mut global_modified = false;
 
         for _ in 0..options.rounds {
@@ -431,6 +442,11 @@ impl PassManager {
                 }
 
                 ir.verify()?;
+
+                #[cfg(fuellabs_sway_verif)]
+                if verif::observe(pass, ir) {
+                    self.analyses.results.clear();
+                }
 
                 if options.force_verify_ir {
                     // Verify pass correctly return modified
@@ -619,4 +635,80 @@ pub fn insert_after_each(pg: PassGroup, pass: &'static str) -> PassGroup {
     }
 
     PassGroup(insert_after_each_rec(pg, pass))
+}
+
+/// Verification seam (only compiled with `--cfg fuellabs_sway_verif`): lets a harness edit the
+/// flattened pass list just before it runs, and observe (or replace) the IR after every pass.
+/// With no controller installed on the current thread everything behaves as without the cfg.
+#[cfg(fuellabs_sway_verif)]
+pub mod verif {
+    use super::{Options, PassGroup};
+    use crate::Context;
+    use std::cell::RefCell;
+
+    /// Called with the flattened pass list; returns the list to run instead.
+    pub type PassListEditor = Box<dyn Fn(Vec<&'static str>) -> Vec<&'static str>>;
+    /// Called with the name of the pass that just ran ("" = before the first pass) and the IR.
+    /// `true` means the observer replaced the context (cached analyses are dropped).
+    pub type Observer = Box<dyn FnMut(&str, &mut Context) -> bool>;
+
+    #[derive(Default)]
+    pub struct Controller {
+        pub edit_passes: Option<PassListEditor>,
+        pub observer: Option<Observer>,
+        pub rounds: Option<usize>,
+    }
+
+    thread_local! {
+        static CONTROLLER: RefCell<Option<Controller>> = const { RefCell::new(None) };
+    }
+
+    /// Install (or, with `None`, remove) the controller of the current thread.
+    pub fn set_controller(c: Option<Controller>) -> Option<Controller> {
+        CONTROLLER.with(|cell| std::mem::replace(&mut *cell.borrow_mut(), c))
+    }
+
+    pub(super) fn edited_pass_group(passes: &PassGroup) -> Option<PassGroup> {
+        CONTROLLER.with(|cell| {
+            let guard = cell.borrow();
+            let edit = guard.as_ref()?.edit_passes.as_ref()?;
+            let mut group = PassGroup::default();
+            for pass in edit(passes.flatten_pass_group()) {
+                group.append_pass(pass);
+            }
+            Some(group)
+        })
+    }
+
+    pub(super) fn edited_options(options: &Options) -> Options {
+        let rounds = CONTROLLER.with(|cell| cell.borrow().as_ref().and_then(|c| c.rounds));
+        Options {
+            print_initial: options.print_initial,
+            print_final: options.print_final,
+            print_modified_only: options.print_modified_only,
+            print_metadata: options.print_metadata,
+            print_passes: options.print_passes.clone(),
+            force_verify_ir: options.force_verify_ir,
+            rounds: rounds.unwrap_or(options.rounds),
+        }
+    }
+
+    pub(super) fn observe(pass: &str, ir: &mut Context) -> bool {
+        // Take the observer out while it runs so that it may itself use the pass manager.
+        let observer = CONTROLLER.with(|cell| {
+            cell.borrow_mut()
+                .as_mut()
+                .and_then(|c| c.observer.take())
+        });
+        let Some(mut observer) = observer else {
+            return false;
+        };
+        let replaced = observer(pass, ir);
+        CONTROLLER.with(|cell| {
+            if let Some(c) = cell.borrow_mut().as_mut() {
+                c.observer = Some(observer);
+            }
+        });
+        replaced
+    }
 }
